@@ -639,26 +639,28 @@ fn low_level_uncompress_bytes(
 }
 
 fn determine_pseudo_phase(lg_k: u8, num_coupons: u32) -> u8 {
-    let k = 1 << lg_k;
+    // 64-bit arithmetic: 1000 * num_coupons and 2375 * k exceed u32 from lg_k = 21
+    let k: u64 = 1 << lg_k;
+    let c = num_coupons as u64;
     // This mid-range logic produces pseudo-phases. They are used to select encoding tables.
     // The thresholds were chosen by hand after looking at plots of measured compression.
-    if 1000 * num_coupons < 2375 * k {
-        if 4 * num_coupons < 3 * k {
+    if 1000 * c < 2375 * k {
+        if 4 * c < 3 * k {
             // mid-range table
             16
-        } else if 10 * num_coupons < 11 * k {
+        } else if 10 * c < 11 * k {
             // mid-range table
             16 + 1
-        } else if 100 * num_coupons < 132 * k {
+        } else if 100 * c < 132 * k {
             // mid-range table
             16 + 2
-        } else if 3 * num_coupons < 5 * k {
+        } else if 3 * c < 5 * k {
             // mid-range table
             16 + 3
-        } else if 1000 * num_coupons < 1965 * k {
+        } else if 1000 * c < 1965 * k {
             // mid-range table
             16 + 4
-        } else if 1000 * num_coupons < 2275 * k {
+        } else if 1000 * c < 2275 * k {
             // mid-range table
             16 + 5
         } else {
